@@ -31,4 +31,4 @@ def run(ck):
               "load succeeds its result is a recorded save; weak/inconsistent configurations are refused. non-trivial = distinct genuine cipher texts (each the origin of ~100..1000 tampered ones)",
               "cookies_total", "cookies", min_evals=50000,
               required_nonzero=("genuine_accepted", "expired_rejected", "tampered_bitflip", "tampered_truncate", "tampered_splice", "tampered_other-key-or-algorithm", "tampered_near-key", "arbitrary_cookies",
-                                "confidentiality_checks", "deadline_edge_checks", "configuration_checks"))
+                                "confidentiality_checks", "deadline_edge_checks", "configuration_checks", "configured_pairs_identical", "configured_sibling_cbc_key", "configured_sibling_hmac_key", "configured_sibling_key"))
